@@ -226,12 +226,18 @@ def _check_rounding(pid, fty, tier):
     # post-condition), round's post-condition and the packing helper, for this float type
     scl = ["default", "compact"] if tier == "quick" else E4_CONFIGS
     jobs = _cutoff_jobs(scl) + [{"config": c, "mode": "dbg", "model": "valid", "kind": "fn", "target": "minimal_lexical::rounding::round", "pre": "round", "post": "round"} for c in scl]
+    jobs += [{"config": c, "mode": m, "model": "valid", "kind": "fn", "target": "minimal_lexical::number::{impl#0}::try_fast_path", "post": "fastpath"} for c in scl for m in ("dbg", "rel")]
     results = run_jobs(jobs)
     sfx = F.build_many([(c, "rel") for c in scl])
     tag = "<%s>" % fty
-    _e4_report(rep, "C11", results, lambda j: "%s %s" % (j["config"], "stage" if j.get("post") == "cutoff" else "round"),
-               {"%s %s" % (c, k): sfx[(c, "rel")] for c in scl for k in ("stage", "round")},
+    def _grp(j):
+        return "%s %s" % (j["config"], {"cutoff": "stage", "round": "round"}.get(j.get("post"), "fast path/" + j["mode"]))
+    sides = {"%s %s" % (c, k): sfx[(c, "rel")] for c in scl for k in ("stage", "round", "fast path/dbg", "fast path/rel")}
+    _e4_report(rep, "C11", [r for r in results if r["job"].get("post") != "fastpath"], _grp, sides,
                fn_filter=lambda o: o["kind"].startswith("post:") and tag in o["fn"], floor_per_group=1)
+    # the fast path must not contain wrapping arithmetic that can wrap (none at all today: expected count zero)
+    _e4_report(rep, "C11", [r for r in results if r["job"].get("post") == "fastpath"], _grp, sides,
+               fn_filter=lambda o: o["kind"].startswith("wrap-free") and tag in o["fn"], floor_per_group=0)
     rep.note("NOT decided: that the Eisel-Lemire / Bellerophon / big-integer algorithms round correctly. Decided: the per-format constants equal their IEEE-derived definitions (equalities) or lie on the necessary side of their bound (one-sided), every table entry equals its definition" + ("; single-rounding structure" if fty == "f32" else ""))
     return rep.finish(
         "other",
